@@ -5,7 +5,9 @@ import (
 	"encoding/json"
 	"flag"
 	"fmt"
+	"math/rand"
 	"net"
+	"os"
 	"sort"
 	"strings"
 	"sync"
@@ -21,6 +23,7 @@ import (
 	"github.com/samaritan-proxy/samaritan/proc/verifexport"
 
 	"verifharness/internal/cli"
+	"verifharness/internal/ports"
 	"verifharness/internal/sut"
 )
 
@@ -89,20 +92,25 @@ type backend struct {
 }
 
 type fixture struct {
-	mu     sync.Mutex
-	relays []relayEvent
-	seq    int
-	byID   map[int]*relay
-	bs     []*backend
-	wg     sync.WaitGroup
-	closed bool
+	mu      sync.Mutex
+	relays  []relayEvent
+	seq     int
+	nonce   string // tokens of this fixture's clients are "C<nonce>.<id>"; anything else is foreign
+	foreign int    // connections that carried neither a probe nor a token of this fixture
+	byID    map[int]*relay
+	bs      []*backend
+	wg      sync.WaitGroup
+	closed  bool
 }
 
 func newFixture(n int) (*fixture, error) {
-	fx := &fixture{byID: map[int]*relay{}}
+	fx := &fixture{byID: map[int]*relay{}, nonce: fmt.Sprintf("%08x%08x", rand.Uint32(), uint32(os.Getpid())^uint32(time.Now().UnixNano()))}
 	var lns []net.Listener
 	for i := 0; i < n; i++ {
-		ln, err := net.Listen("tcp", "127.0.0.1:0")
+		// a port of this process' private blocks (internal/ports): an ephemeral port that a refusing
+		// backend gives up is re-issued by the kernel to anybody, e.g. to a backend of another harness
+		// process running in parallel, whose connections would then arrive here
+		ln, err := net.Listen("tcp", fmt.Sprintf("127.0.0.1:%d", ports.Free()))
 		if err != nil {
 			return nil, err
 		}
@@ -188,19 +196,25 @@ func (b *backend) handle(c net.Conn) {
 		b.mu.Unlock()
 		return
 	}
+	// a relayed client connection is only ever attributed to this backend when it carries the
+	// token of a client of THIS fixture; a connection without one (closed before any byte, or from
+	// somebody else) is counted as foreign and dropped
 	rl := &relay{c: c, back: b.idx}
-	fmt.Sscanf(line, "C%d", &rl.id)
-	b.fx.mu.Lock()
-	b.fx.seq++
-	b.fx.relays = append(b.fx.relays, relayEvent{seq: b.fx.seq, backend: b.idx, token: line})
-	if rl.id != 0 {
-		b.fx.byID[rl.id] = rl
+	prefix := "C" + b.fx.nonce + "."
+	if err == nil && strings.HasPrefix(line, prefix) {
+		fmt.Sscanf(line[len(prefix):], "%d", &rl.id)
 	}
-	b.fx.mu.Unlock()
-	if err != nil {
+	b.fx.mu.Lock()
+	if rl.id == 0 {
+		b.fx.foreign++
+		b.fx.mu.Unlock()
 		c.Close()
 		return
 	}
+	b.fx.seq++
+	b.fx.relays = append(b.fx.relays, relayEvent{seq: b.fx.seq, backend: b.idx, token: line})
+	b.fx.byID[rl.id] = rl
+	b.fx.mu.Unlock()
 	fmt.Fprintf(c, "B%d\n", b.idx)
 	buf := make([]byte, 256)
 	for {
@@ -272,6 +286,9 @@ func (fx *fixture) realCounts() []int {
 	}
 	return out
 }
+
+// token is the first line a client of this fixture sends.
+func (fx *fixture) token(id int) string { return fmt.Sprintf("C%s.%d\n", fx.nonce, id) }
 
 func (fx *fixture) relayOf(id int) *relay {
 	fx.mu.Lock()
@@ -435,11 +452,12 @@ type EObs struct {
 }
 
 type EResult struct {
-	ID     int    `json:"id"`
-	Policy string `json:"policy"`
-	Obs    []EObs `json:"obs"`
-	Err    string `json:"err,omitempty"`
-	Steps  int    `json:"steps"`
+	ID      int    `json:"id"`
+	Policy  string `json:"policy"`
+	Obs     []EObs `json:"obs"`
+	Err     string `json:"err,omitempty"`
+	Steps   int    `json:"steps"`
+	Foreign int    `json:"foreign,omitempty"` // connections at the backends that carried neither a probe nor a token of this run
 }
 
 type clientConn struct {
@@ -758,6 +776,9 @@ func runE2E(id int, policy string, nohc bool, steps []EStep, naddr int, settle t
 			res.Err = "processor did not stop"
 		}
 		close(stop)
+		fx.mu.Lock()
+		res.Foreign = fx.foreign
+		fx.mu.Unlock()
 	}()
 	// Wait until the processor listens.  The host set is empty, so the first connection that gets
 	// through is closed by the processor without touching the balancer; waiting for that close
@@ -840,7 +861,7 @@ func runE2E(id int, policy string, nohc bool, steps []EStep, naddr int, settle t
 				res.Err = fmt.Sprintf("step %d: dial proxy: %v", i, err)
 				return
 			}
-			fmt.Fprintf(c, "C%d\n", s.ID)
+			fmt.Fprint(c, fx.token(s.ID))
 			rd := bufio.NewReader(c)
 			c.SetReadDeadline(time.Now().Add(5 * time.Second))
 			line, err := rd.ReadString('\n')
@@ -857,19 +878,24 @@ func runE2E(id int, policy string, nohc bool, steps []EStep, naddr int, settle t
 					o.ClientSaw = "closed"
 				}
 				c.Close()
-				// did a backend receive the connection before it was closed?
+				// did a backend see THIS connection's token before it was closed?  (exact: by the
+				// token; the wait only bounds how long a token that is already on its way may take)
 				dl := time.Now().Add(60 * time.Millisecond)
-				for time.Now().Before(dl) && len(fx.relaysSince(seq)) == 0 {
+				for time.Now().Before(dl) && fx.relayOf(s.ID) == nil {
 					time.Sleep(time.Millisecond)
 				}
 			}
-			if ev := fx.relaysSince(seq); len(ev) > 0 {
+			_ = seq
+			if rl := fx.relayOf(s.ID); rl != nil {
 				if o.Backend == 0 {
-					o.Backend = ev[0].backend
-				} else if ev[0].backend != o.Backend || len(ev) > 1 {
-					res.Err = fmt.Sprintf("step %d: relay bookkeeping inconsistent: client saw B%d, backends saw %v", i, o.Backend, ev)
+					o.Backend = rl.back
+				} else if rl.back != o.Backend {
+					res.Err = fmt.Sprintf("step %d: client %d was answered by backend %d, its token arrived at backend %d", i, s.ID, o.Backend, rl.back)
 					return
 				}
+			} else if o.Backend != 0 {
+				res.Err = fmt.Sprintf("step %d: client %d was answered by backend %d which has not seen its token", i, s.ID, o.Backend)
+				return
 			}
 		default:
 			res.Err = "unknown op " + s.Op
